@@ -7,7 +7,6 @@ namespace Drv.C10
 def errStr : Err → String
   | .dataInvalid => "data-invalid"
   | .indexError => "index-error"
-  | .attributeError => "attribute-error"
   | .valueError => "value-error"
   | .improperlyConfigured => "improperly-configured"
 
